@@ -34,7 +34,10 @@ NearMiss ==
   \cup {Bin("and_v", Un("v", Pk(1)), Leaf("1", 0)), Bin("or_i", Leaf("0", 0), Pk(1)), Bin("or_i", Pk(1), Leaf("0", 0)),
         Tern("andor", Pk(1), Pk(2), Leaf("0", 0))}
 
-Base == SetToSeq({x.a : x \in WTUpTo(MaxNodes)} \cup {a \in NearMiss : TypeOf(a, Ctx).ok})
+\* the matrix is quadratic in the number of items: above the exhaustive bound the enumerated
+\* fragments are thinned (every PairStride-th by seed); the near-miss families are always complete
+CONSTANT PairStride
+Base == SetToSeq(Thin({x.a : x \in WTUpTo(MaxNodes)}, PairStride, CompSeed) \cup {a \in NearMiss : TypeOf(a, Ctx).ok})
 
 Items == [q \in 1..(2 * Len(Base)) |->
             [ast |-> Base[((q - 1) \div 2) + 1], base |-> ((q - 1) \div 2) + 1, style |-> IF q % 2 = 1 THEN "x" ELSE "s"]]
